@@ -85,4 +85,31 @@ def StmtsTyped (Γ : Env) : IStmts → Prop
   | .cons s r => StmtTyped Γ s ∧ StmtsTyped Γ r
 end
 
+/-! ## projection chains (source level) -/
+open RsslVerif.Model.ElabX in
+/-- one projection step: `.name` (struct member or swizzle) or `[i]` -/
+inductive Proj where
+  | member (name : String)
+  | index (i : RsslVerif.Model.ElabX.SExpr)
+  deriving Repr
+
+open RsslVerif.Model.ElabX in
+def applyProj (e : SExpr) : Proj → SExpr
+  | .member n => .member e n
+  | .index i => .index e i
+
+open RsslVerif.Model.ElabX in
+/-- `base` followed by the projections, innermost first: `applyChain v [.member "a", .index i]` is `v.a[i]` -/
+def applyChain (base : SExpr) : List Proj → SExpr
+  | [] => base
+  | p :: ps => applyChain (applyProj base p) ps
+
+/-- a const value of scalar / vector / matrix type -/
+def ConstNum (τ : ETy) : Prop := τ.ty.mod.isConst = true ∧ τ.ty.layer.isNumeric = true
+
+/-- an array whose element type is a const scalar / vector / matrix type (`const float a[3]`) -/
+def ConstArr (Γ : Env) (τ : ETy) : Prop :=
+  ∃ id elem len, τ.ty.layer = .other id ∧ Γ.others[id]? = some (.array elem len) ∧
+    elem.mod.isConst = true ∧ elem.layer.isNumeric = true
+
 end RsslVerif.Spec.ElabX
